@@ -1166,9 +1166,9 @@ class List(Generic, ValueSpecBase):
     """List specific apply."""
     # NOTE(daiyip): for symbolic List, write access using `__setitem__` will
     # trigger permission error when `accessor_writable` is set to False.
-    # As a result, we always try `_set_item_without_permission_check` if it's
-    # available.
-    set_item = getattr(value, '_set_item_without_permission_check', None)
+    # As a result, we always try `_set_item_by_value_spec` (which refuses a
+    # sealed list only) if it's available.
+    set_item = getattr(value, '_set_item_by_value_spec', None)
     if set_item is None:
       def _fn(i, v):
         value[i] = v
